@@ -5,8 +5,11 @@ From Dashu Require Import Base.Prelude Float.RoundSpec Ratio.SimplestSpec Ratio.
   Ratio.SimplestProof Ratio.SimplestAsis Ratio.FareyProof Ratio.FareyNext Ratio.FareyNearest Ratio.SimplestFindings
   Ratio.SimplestClosed Ratio.SimplestFloatEq Ratio.SimplestIeeeEq Ratio.SimplestIeeeFixed Ratio.RoundPreimage Ratio.FloatPreimage Ratio.IeeePreimage
   Ratio.SimplestFromFloatCorrect
-  Ratio.ErrorBoundsTableProof Ratio.SimplifyGenProof Ratio.RoundExecProof Ratio.SimplestEdges.
-From DashuGen Require Import ErrorBoundsTable SimplifyGen.
+  Ratio.ErrorBoundsTableProof Ratio.SimplifyGenProof Ratio.RoundExecProof Ratio.SimplestEdges
+  Ratio.SimplestDeepModel Ratio.SimplestDeepProof Ratio.SimplifyBodiesModel Ratio.SimplifyBodiesProof Ratio.SimplestIeeeDeepModel Ratio.SimplestIeeeDeepProof
+  Ratio.SimplestR4Findings.
+From Dashu Require Conv.ConvSpec Conv.ConvModel Float.Contract Float.AddModel.
+From DashuGen Require Import ErrorBoundsTable SimplifyGen SimplestFloatGen SimplifyBodiesGen.
 Open Scope Z_scope.
 
 (** ** is_simpler_than *)
@@ -457,3 +460,115 @@ Theorem C18_simplest_from_ieee_zero : forall mb eb bits,
   simplest_from_ieee_asis mb eb bits = Ok (Some (0, 1)).
 Proof. exact simplest_from_ieee_asis_zero. Qed.
 Print Assumptions C18_simplest_from_ieee_zero.
+
+(** ** round 4 *)
+(** the DEEP as-is model of simplest_from_float forms the bounds the way the code does - error_bounds as FBig values
+    (regenerated table, regenerated FBig::ulp, half_ulp, towards_zero), .with_precision(p+1).unwrap() (regenerated over
+    C10's repr_round), &FBig -/+ FBig (regenerated add_ref_val over C03's Context::max / repr_round / repr_add_small_large
+    / repr_add_large_small / repr_round_sum models, FBig::new normalising), RBig::try_from (regenerated) - inside the
+    REGENERATED body of simplest_from_float.  It equals the value-level model for every base >= 2, mode, precision
+    (0 = unlimited included), normalised significand of at most p digits, exponent and every sound digit estimate:
+    the FBig subtraction / addition is exact there (F09 was a failure of exactly this) *)
+Theorem C18_simplest_from_float_deep_is_asis : forall B, 2 <= B -> forall dub, (forall s, Contract.dlen B s <= dub s) ->
+  forall md p sig ex, 0 <= p -> sig mod B <> 0 -> (p = 0 \/ ndigits B (Z.abs sig) <= p) ->
+  simplest_from_float_deep B dub md p sig ex = simplest_from_float_asis B md p sig ex.
+Proof. exact simplest_from_float_deep_asis. Qed.
+Print Assumptions C18_simplest_from_float_deep_is_asis.
+
+(** the interval the code ACTUALLY forms is the specified preimage interval of the float (outside F06) *)
+Theorem C18_float_bounds_deep_interval : forall B, 2 <= B -> forall dub, (forall s, Contract.dlen B s <= dub s) ->
+  forall md p sig ex, 0 < p -> sig mod B <> 0 -> ndigits B (Z.abs sig) <= p -> known_float B md p sig = false ->
+  exists tl tr il ir lb rb,
+    float_bounds_deep B dub md p sig ex = Ok (tl, tr, il, ir, lb, rb) /\
+    (freduce (repr_try_from_gen B (fb_sig lb) (fb_exp lb)), freduce (repr_try_from_gen B (fb_sig rb) (fb_exp rb)), il, ir)
+    = float_interval_spec B md p sig ex.
+Proof. exact float_bounds_deep_interval. Qed.
+Print Assumptions C18_float_bounds_deep_interval.
+
+Theorem C18_simplest_from_float_deep_unless_known : forall B, 2 <= B -> forall dub, (forall s, Contract.dlen B s <= dub s) ->
+  forall md p sig ex, 0 < p -> sig mod B <> 0 -> ndigits B (Z.abs sig) <= p -> known_float B md p sig = false ->
+  simplest_from_float_deep B dub md p sig ex = simplest_from_float_spec B md p sig ex.
+Proof. exact simplest_from_float_deep_spec. Qed.
+Print Assumptions C18_simplest_from_float_deep_unless_known.
+
+Theorem C18_simplest_from_float_deep_unlimited : forall B, 2 <= B -> forall dub, (forall s, Contract.dlen B s <= dub s) ->
+  forall md sig ex, sig mod B <> 0 ->
+  simplest_from_float_deep B dub md 0 sig ex = simplest_from_float_spec B md 0 sig ex.
+Proof. exact simplest_from_float_deep_spec_unlimited. Qed.
+Print Assumptions C18_simplest_from_float_deep_unlimited.
+
+(** towards_zero is only applied to the bound on the side of zero: re-proved over the REGENERATED ErrorBounds table
+    (this is what keeps the sums within p+1 digits) *)
+Theorem C18_error_bounds_rows_good : forall B md p sig dg, sig <> 0 ->
+  let '(l, r, _, _) := eb_table_of md B p sig dg in term_good Negative sig l /\ term_good Positive sig r.
+Proof. exact row_good. Qed.
+Print Assumptions C18_error_bounds_rows_good.
+
+(** C03's add models return a sum that fits the result precision exactly: the lemma the bounds rest on *)
+Theorem C18_fbig_add_exact : forall B, 2 <= B -> forall dub, (forall s, Contract.dlen B s <= dub s) ->
+  forall m f t sg, let P := ctx_max_gen (fb_prec f) (fb_prec t) in
+  1 <= P -> fb_sig f <> 0 -> fb_sig t <> 0 -> Contract.dlen B (fb_sig f) <= P -> Contract.dlen B (fb_sig t) <= P ->
+  Z.abs (AddModelProof.exact_sum B (fb_sig f) (fb_exp f) (fb_sig t) (fb_exp t) sg) < B ^ P ->
+  let X := add_ref_val_gen B dub m f t sg in
+  freduce (repr_try_from_gen B (fb_sig X) (fb_exp X))
+  = freduce (fop sg (scaled B (fb_sig f) (fb_exp f) 1) (scaled B (fb_sig t) (fb_exp t) 1)).
+Proof. exact add_exact. Qed.
+Print Assumptions C18_fbig_add_exact.
+
+(** f32 / f64: the macro over C06's as-is model of FloatEncoding::decode (base/src/bit.rs; C06_decode_f32/f64 prove
+    it equal to decode_spec) computes the specified optimum for EVERY bit pattern of the width *)
+Theorem C18_simplest_from_f32_over_decode : forall bits, 0 <= bits < 2 ^ 32 ->
+  simplest_from_f32_deep bits = simplest_from_ieee_asis 23 8 bits /\
+  simplest_from_f32_deep bits = simplest_from_ieee_spec 23 8 bits.
+Proof. exact (fun bits H => conj (simplest_from_f32_deep_asis bits H) (simplest_from_f32_deep_spec bits H)). Qed.
+Print Assumptions C18_simplest_from_f32_over_decode.
+
+Theorem C18_simplest_from_f64_over_decode : forall bits, 0 <= bits < 2 ^ 64 ->
+  simplest_from_f64_deep bits = simplest_from_ieee_asis 52 11 bits /\
+  simplest_from_f64_deep bits = simplest_from_ieee_spec 52 11 bits.
+Proof. exact (fun bits H => conj (simplest_from_f64_deep_asis bits H) (simplest_from_f64_deep_spec bits H)). Qed.
+Print Assumptions C18_simplest_from_f64_over_decode.
+
+Theorem C18_simplest_from_ieee_over_decode_spec : forall mb eb bits, 0 <= mb -> 0 <= eb -> 0 <= bits < 2 ^ (mb + eb + 1) ->
+  simplest_from_ieee_deep (ConvSpec.decode_spec (fmt_mb_eb mb eb)) mb eb bits = simplest_from_ieee_asis mb eb bits.
+Proof. exact ieee_deep_spec_asis. Qed.
+Print Assumptions C18_simplest_from_ieee_over_decode_spec.
+
+(** WHOLE bodies of rational/src/simplify.rs regenerated (gen/SimplifyBodiesGen.v): Repr::simplest_in (sign dispatch,
+    abs, cmp / swap / equal end points, loop entry state, debug assertion, tail) + RBig::simplest_in, around the
+    regenerated loop step of round 3; nearest / next_up / next_down around farey_neighbors *)
+Theorem C18_simplest_in_body_regenerated : forall l u,
+  rbig_simplest_in_gen cf_run_gen l u = simplest_in_asis l u /\
+  (0 < snd l -> 0 < snd u -> rbig_simplest_in_gen cf_run_gen l u = simplest_in_spec l u).
+Proof. exact (fun l u => conj (rbig_simplest_in_gen_asis l u) (rbig_simplest_in_gen_spec l u)). Qed.
+Print Assumptions C18_simplest_in_body_regenerated.
+
+Theorem C18_nearest_body_regenerated : forall x L, nearest_gen farey_neighbors_asis x L = nearest_asis x L.
+Proof. exact nearest_gen_asis. Qed.
+Print Assumptions C18_nearest_body_regenerated.
+
+Theorem C18_next_up_body_regenerated : forall x L,
+  next_up_gen farey_neighbors_asis x L = next_up_asis x L /\
+  (1 <= L -> 0 < snd x -> Z.gcd (fst x) (snd x) = 1 -> exists r, next_up_gen farey_neighbors_asis x L = Ok r /\ is_succ x L r).
+Proof. exact (fun x L => conj (next_up_gen_asis x L) (next_up_gen_correct x L)). Qed.
+Print Assumptions C18_next_up_body_regenerated.
+
+Theorem C18_next_down_body_regenerated : forall x L,
+  next_down_gen farey_neighbors_asis x L = next_down_asis x L /\
+  (1 <= L -> 0 < snd x -> Z.gcd (fst x) (snd x) = 1 -> exists r, next_down_gen farey_neighbors_asis x L = Ok r /\ is_pred x L r).
+Proof. exact (fun x L => conj (next_down_gen_asis x L) (next_down_gen_correct x L)). Qed.
+Print Assumptions C18_next_down_body_regenerated.
+
+(** F06 decision: the conservative bounds floor(B/2) * B^(e-1) make the answer round back to the float but not optimal *)
+Theorem C18_F06_conservative_not_optimal :
+  known_float 3 MHalfAway 2 4 = true /\
+  float_interval_spec 3 MHalfAway 2 4 (-2) = ((7, 18), (1, 2), true, false) /\
+  simplest_from_float_spec 3 MHalfAway 2 4 (-2) = Ok (Some (2, 5)) /\
+  simplest_from_float_asis 3 MHalfAway 2 4 (-2) = Ok (Some (1, 2)) /\
+  round_to_prec 3 MHalfAway 2 (1, 2) = (5, 9) /\
+  conservative_half_interval 3 2 4 (-2) = ((11, 27), (13, 27), true, true) /\
+  simplest_closed (conservative_half_interval 3 2 4 (-2)) = Ok (3, 7) /\
+  round_to_prec 3 MHalfAway 2 (3, 7) = (4, 9) /\ round_to_prec 3 MHalfAway 2 (2, 5) = (4, 9) /\
+  simpler (2, 5) (3, 7) = true.
+Proof. exact F06_conservative_not_optimal. Qed.
+Print Assumptions C18_F06_conservative_not_optimal.
